@@ -4,8 +4,8 @@
 // custom-key requirements leave some domains unprovisionable, namespaces with labels, 1-3 "deployments" with
 // mixes of required/preferred pod (anti-)affinity and topology spread constraints), pre-populates it through the
 // real pipeline (Schedule → Create → lifecycle → kubelet → bind) with skewed distributions of matching pods, some of
-// which carry required anti-affinity themselves, adds a batch of 2-14 pending pods and runs the real
-// Provisioner.Schedule. The resulting scheduling.Results, together with the pods bound in the API, are judged by
+// which carry required anti-affinity themselves, and then runs three scheduling passes, each with a fresh batch of
+// 2-14 pending pods and its own configuration, through the real Provisioner.Schedule. The resulting scheduling.Results, together with the pods bound in the API, are judged by
 // the realisation checker in verif/oracle (c02_interpod.go): every assignment of concrete topology domains to the
 // new NodeClaims is enumerated and checked against the Kubernetes rules.
 package c02
@@ -48,11 +48,12 @@ func cases(tier string) int {
 
 // World is what a case generates.
 type World struct {
-	S      *common.Scenario
-	Deps   []*gen.C02Deployment
-	Opt    map[string]any
-	Seeded []string
-	Batch  []*corev1.Pod
+	S       *common.Scenario
+	Deps    []*gen.C02Deployment
+	Opt     map[string]any
+	Seeded  []string
+	Batch   []*corev1.Pod
+	respect bool
 }
 
 func versionOf(rng *rand.Rand) string { return []string{"v1", "v1", "v2"}[rng.Intn(3)] }
@@ -65,11 +66,9 @@ func hasZoneConstraint(d *gen.C02Deployment) bool {
 }
 
 func buildWorld(rng *rand.Rand) *World {
-	pp := []options.PreferencePolicy{options.PreferencePolicyRespect, options.PreferencePolicyIgnore}[rng.Intn(2)]
-	cpu := []int64{1000, 4000, 8000}[rng.Intn(3)]
 	rc := false
-	opts := test.OptionsFields{PreferencePolicy: &pp, CPURequests: &cpu, FeatureGates: test.FeatureGates{ReservedCapacity: &rc}}
-	w := &World{Opt: map[string]any{"preferencePolicy": string(pp), "parallelism": cpu / 1000}}
+	opts := test.OptionsFields{FeatureGates: test.FeatureGates{ReservedCapacity: &rc}}
+	w := &World{Opt: map[string]any{}}
 	s := &common.Scenario{Types: map[string][]*cloudprovider.InstanceType{}, Specs: map[string][]gen.TypeSpec{}, Desc: map[string]any{}, NodeInfo: map[string]string{}}
 	s.Env = world.NewEnv(rng, opts)
 	w.S = s
@@ -97,6 +96,24 @@ func buildWorld(rng *rand.Rand) *World {
 	s.Desc["catalog"] = specs
 	e.Provider.Policy = []string{"cheapest", "dearest", "largest", "smallest", "random"}[rng.Intn(5)]
 	w.Deps = gen.C02Deployments(rng, 1+rng.Intn(3), gen.DefaultC02Cfg())
+	// directed enrichment (1 world in 8): a deployment whose hard spread honours node taints and that does not tolerate
+	// the "dedicated" taint, plus (below) a tainted unmanaged node full of its replicas next to an untainted empty node
+	// of the same domain: the replicas on the tainted node must not be counted
+	var tsDep *gen.C02Deployment
+	tsKey := ""
+	if rng.Intn(8) == 0 {
+		for _, d := range w.Deps {
+			for i := range d.Spread {
+				c := &d.Spread[i]
+				if tsDep == nil && c.WhenUnsatisfiable == corev1.DoNotSchedule && (c.TopologyKey == corev1.LabelTopologyZone || c.TopologyKey == gen.LabelCell) {
+					honor := corev1.NodeInclusionPolicyHonor
+					c.NodeTaintsPolicy = &honor
+					d.Tolerations = nil
+					tsDep, tsKey = d, c.TopologyKey
+				}
+			}
+		}
+	}
 	s.Desc["deployments"] = w.Deps
 
 	// ---- pre-existing distribution, through the real pipeline ----
@@ -121,12 +138,62 @@ func buildWorld(rng *rand.Rand) *World {
 	for k := rng.Intn(3); k > 0; k-- {
 		addUnmanaged(rng, w)
 	}
+	if tsDep != nil {
+		val := gen.Zones[rng.Intn(3)]
+		if tsKey == gen.LabelCell {
+			val = gen.Cells[rng.Intn(3)]
+		}
+		for i := 0; i < 2; i++ {
+			name := fmt.Sprintf("unmanaged-t%d", i)
+			n := unmanagedNode(name, map[string]string{corev1.LabelHostname: name, corev1.LabelTopologyZone: gen.Zones[rng.Intn(3)], gen.LabelCell: gen.Cells[rng.Intn(3)]})
+			n.Labels[tsKey] = val
+			if i == 0 {
+				n.Spec.Taints = []corev1.Taint{{Key: "dedicated", Value: "x", Effect: corev1.TaintEffectNoSchedule}}
+			}
+			e.Apply(n)
+			s.NodeInfo[name] = fmt.Sprintf("unmanaged labels=%v taints=%v", n.Labels, n.Spec.Taints)
+			if i == 0 {
+				for k := 2 + rng.Intn(3); k > 0; k-- { // bound before the taint was added
+					p := tsDep.Pod(s.NextPodName("u"), versionOf(rng), 100, 64, true)
+					gen.Bound(name, e.Clock.Now())(p)
+					e.Apply(p)
+					w.Seeded = append(w.Seeded, p.Name)
+				}
+			}
+		}
+	}
 	// some running matching pods are terminating / terminal: they must not count
 	if rng.Intn(5) == 0 {
 		perturbRunning(rng, w)
 	}
 
-	// ---- the batch ----
+	// sometimes one managed node is being deleted: its reschedulable pods join the batch (and are excluded from counts)
+	if names := e.ClaimNames(); len(names) > 0 && rng.Intn(5) == 0 {
+		nc := &v1.NodeClaim{}
+		if e.API.Raw.Get(context.Background(), types.NamespacedName{Name: names[rng.Intn(len(names))]}, nc) == nil {
+			_ = e.API.Raw.Delete(context.Background(), nc)
+			w.Opt["deletingClaim"] = nc.Name
+		}
+	}
+	return w
+}
+
+// newBatch removes what is left pending from the previous round and creates a fresh batch of 2-14 pending pods.
+func newBatch(rng *rand.Rand, w *World, round int) {
+	s := w.S
+	e := s.Env
+	if round > 0 {
+		pods := &corev1.PodList{}
+		_ = e.API.Raw.List(context.Background(), pods)
+		for i := range pods.Items {
+			if pods.Items[i].Spec.NodeName == "" {
+				_ = e.API.Raw.Delete(context.Background(), &pods.Items[i])
+			}
+		}
+		e.Clock.Step(time.Duration(1+rng.Intn(30)) * time.Second)
+	}
+	w.Batch = nil
+	rollout := rng.Intn(8) == 0
 	n := 2 + rng.Intn(13)
 	for i := 0; i < n; i++ {
 		d := w.Deps[rng.Intn(len(w.Deps))]
@@ -138,13 +205,39 @@ func buildWorld(rng *rand.Rand) *World {
 			mem = []int64{64, 128, 256, 512, 1024}[rng.Intn(5)]
 		}
 		p := d.Pod(s.NextPodName("p"), versionOf(rng), cpuReq, mem, rng.Intn(8) == 0)
+		if rollout && i%2 == 1 {
+			// replicas of the "new revision" of a deployment in the middle of a rollout: same constraint, minDomains edited
+			for ci := range p.Spec.TopologySpreadConstraints {
+				c := &p.Spec.TopologySpreadConstraints[ci]
+				if c.WhenUnsatisfiable != corev1.DoNotSchedule {
+					continue
+				}
+				if c.MinDomains == nil {
+					md := int32(3 + rng.Intn(3))
+					c.MinDomains = &md
+				} else {
+					c.MinDomains = nil
+				}
+			}
+		}
 		if rng.Intn(3) == 0 {
 			e.Clock.Step(time.Duration(1+rng.Intn(3)) * time.Second) // creationTimestamp decides ties in the queue
 		}
 		e.Apply(p)
 		w.Batch = append(w.Batch, p)
 	}
-	return w
+}
+
+func unmanagedNode(name string, lbls map[string]string) *corev1.Node {
+	lbls[corev1.LabelArchStable], lbls[corev1.LabelOSStable] = v1.ArchitectureAmd64, "linux"
+	return &corev1.Node{
+		ObjectMeta: metav1.ObjectMeta{Name: name, Labels: lbls},
+		Spec:       corev1.NodeSpec{ProviderID: "unmanaged://" + name},
+		Status: corev1.NodeStatus{Phase: corev1.NodeRunning,
+			Capacity:    corev1.ResourceList{corev1.ResourceCPU: gen.Q("8"), corev1.ResourceMemory: gen.Q("16Gi"), corev1.ResourcePods: gen.Q("20")},
+			Allocatable: corev1.ResourceList{corev1.ResourceCPU: gen.Q("8"), corev1.ResourceMemory: gen.Q("15Gi"), corev1.ResourcePods: gen.Q("20")},
+			Conditions:  []corev1.NodeCondition{{Type: corev1.NodeReady, Status: corev1.ConditionTrue}}},
+	}
 }
 
 func addUnmanaged(rng *rand.Rand, w *World) {
@@ -162,14 +255,7 @@ func addUnmanaged(rng *rand.Rand, w *World) {
 	if rng.Intn(3) == 0 {
 		lbls[v1.CapacityTypeLabelKey] = gen.CapTypes[rng.Intn(2)]
 	}
-	n := &corev1.Node{
-		ObjectMeta: metav1.ObjectMeta{Name: name, Labels: lbls},
-		Spec:       corev1.NodeSpec{ProviderID: "unmanaged://" + name},
-		Status: corev1.NodeStatus{Phase: corev1.NodeRunning,
-			Capacity:    corev1.ResourceList{corev1.ResourceCPU: gen.Q("8"), corev1.ResourceMemory: gen.Q("16Gi"), corev1.ResourcePods: gen.Q("20")},
-			Allocatable: corev1.ResourceList{corev1.ResourceCPU: gen.Q("8"), corev1.ResourceMemory: gen.Q("15Gi"), corev1.ResourcePods: gen.Q("20")},
-			Conditions:  []corev1.NodeCondition{{Type: corev1.NodeReady, Status: corev1.ConditionTrue}}},
-	}
+	n := unmanagedNode(name, lbls)
 	if rng.Intn(4) == 0 {
 		n.Spec.Taints = []corev1.Taint{{Key: "dedicated", Value: "x", Effect: corev1.TaintEffectNoSchedule}}
 	}
@@ -304,6 +390,75 @@ func claimOptions(r *mon.Report, nc *provscheduling.NodeClaim, id string, keys m
 	return out
 }
 
+// emptiedKeys (classification only): requirement keys of the final NodeClaim that are the empty set ("DoesNotExist")
+// although neither the NodePool nor a pod placed on the claim requires the label to be absent.
+func emptiedKeys(s *common.Scenario, nc *provscheduling.NodeClaim) map[string]bool {
+	out := map[string]bool{}
+	for k, req := range nc.Requirements {
+		if req.Operator() != corev1.NodeSelectorOpDoesNotExist {
+			continue
+		}
+		asked := false
+		for _, np := range s.Pools {
+			if np.Name != nc.NodePoolName {
+				continue
+			}
+			for _, q := range np.Spec.Template.Spec.Requirements {
+				if q.Key == k && q.Operator == corev1.NodeSelectorOpDoesNotExist {
+					asked = true
+				}
+			}
+		}
+		for _, p := range nc.Pods {
+			if p.Spec.Affinity == nil || p.Spec.Affinity.NodeAffinity == nil || p.Spec.Affinity.NodeAffinity.RequiredDuringSchedulingIgnoredDuringExecution == nil {
+				continue
+			}
+			for _, t := range p.Spec.Affinity.NodeAffinity.RequiredDuringSchedulingIgnoredDuringExecution.NodeSelectorTerms {
+				for _, e := range t.MatchExpressions {
+					if e.Key == k && e.Operator == corev1.NodeSelectorOpDoesNotExist {
+						asked = true
+					}
+				}
+			}
+		}
+		if !asked {
+			out[k] = true
+		}
+	}
+	return out
+}
+
+// multiValuedKeys (classification only): keys whose final requirement on the claim admits more than one value.
+func multiValuedKeys(nc *provscheduling.NodeClaim) map[string]bool {
+	out := map[string]bool{}
+	for k, req := range nc.Requirements {
+		if req.Len() > 1 {
+			out[k] = true
+		}
+	}
+	return out
+}
+
+// complementKeys (classification only): keys on which the claim's NodePool has an Exists / NotIn / Gt / Lt requirement.
+func complementKeys(s *common.Scenario, nc *provscheduling.NodeClaim) map[string]bool {
+	return complementKeysOfPool(s, nc.NodePoolName)
+}
+
+func complementKeysOfPool(s *common.Scenario, pool string) map[string]bool {
+	out := map[string]bool{}
+	for _, np := range s.Pools {
+		if np.Name != pool {
+			continue
+		}
+		for _, q := range np.Spec.Template.Spec.Requirements {
+			if q.Operator != corev1.NodeSelectorOpIn && q.Operator != corev1.NodeSelectorOpDoesNotExist {
+				out[q.Key] = true
+			}
+		}
+	}
+	return out
+}
+
 func merge(a, b map[string]string) map[string]string {
 	out := map[string]string{}
 	for k, v := range a {
@@ -336,30 +491,44 @@ func requiredKept(orig, placed *corev1.Pod) string {
 	return ""
 }
 
+const roundsPerWorld = 3
+
 func run(r *mon.Report, tier string, idx int, rng *rand.Rand) {
 	w := buildWorld(rng)
 	s := w.S
 	e := s.Env
-	if err := e.SyncState(); err != nil {
-		r.Inconcl("case %d: state sync error: %v", idx, err)
-		r.Eval()
-		return
-	}
-	originals := common.SnapshotPods(e)
-	var res provscheduling.Results
-	var err error
-	panicked, pv, stack := mon.Guard(func() { res, err = e.Prov.Schedule(e.Ctx) })
 	r.Eval()
-	caseDesc := map[string]any{"case": idx, "options": w.Opt, "pools": s.Desc["pools"], "nodes": s.NodeInfo, "providerPolicy": e.Provider.Policy}
-	if panicked {
-		r.Violate("panic-in-schedule", fmt.Sprintf("Provisioner.Schedule panicked: %v", pv), caseDesc, stack)
-		return
+	for round := 0; round < roundsPerWorld; round++ {
+		newBatch(rng, w, round)
+		if err := e.SyncState(); err != nil {
+			r.Inconcl("case %d: state sync error: %v", idx, err)
+			return
+		}
+		// every round runs under its own configuration (preference policy x parallelism)
+		pp := []options.PreferencePolicy{options.PreferencePolicyRespect, options.PreferencePolicyIgnore}[rng.Intn(2)]
+		o := *e.Opts
+		o.PreferencePolicy = pp
+		o.CPURequests = []int64{1000, 4000, 8000}[rng.Intn(3)]
+		ctx := options.ToContext(e.Ctx, &o)
+		w.Opt["preferencePolicy"], w.Opt["parallelism"], w.Opt["round"] = string(pp), o.CPURequests/1000, round
+		w.respect = pp == options.PreferencePolicyRespect
+		originals := common.SnapshotPods(e)
+		var res provscheduling.Results
+		var err error
+		panicked, pv, stack := mon.Guard(func() { res, err = e.Prov.Schedule(ctx) })
+		r.Inc("scheduling_passes")
+		caseDesc := map[string]any{"case": idx, "round": round, "options": map[string]any{"preferencePolicy": string(pp), "parallelism": o.CPURequests / 1000, "deletingClaim": w.Opt["deletingClaim"]},
+			"pools": s.Desc["pools"], "nodes": s.NodeInfo, "providerPolicy": e.Provider.Policy}
+		if panicked {
+			r.Violate("panic-in-schedule", fmt.Sprintf("Provisioner.Schedule panicked: %v", pv), caseDesc, stack)
+			return
+		}
+		if err != nil {
+			r.Inc("schedule_errors")
+			continue
+		}
+		judge(r, w, res, originals, caseDesc, rng, idx)
 	}
-	if err != nil {
-		r.Inc("schedule_errors")
-		return
-	}
-	judge(r, w, res, originals, caseDesc, rng, idx)
 }
 
 func judge(r *mon.Report, w *World, res provscheduling.Results, originals map[types.UID]*corev1.Pod, caseDesc map[string]any, rng *rand.Rand, idx int) {
@@ -392,6 +561,7 @@ func judge(r *mon.Report, w *World, res provscheduling.Results, originals map[ty
 			byName[en.Node.Name] = len(nodes)
 		} else if en.NodeClaim != nil {
 			n.RawTaints = append(append([]corev1.Taint{}, en.NodeClaim.Spec.Taints...), en.NodeClaim.Spec.StartupTaints...)
+			n.ComplementKeys = complementKeysOfPool(s, en.NodeClaim.Labels[v1.NodePoolLabelKey])
 		}
 		nodes = append(nodes, n)
 	}
@@ -407,7 +577,9 @@ func judge(r *mon.Report, w *World, res provscheduling.Results, originals map[ty
 			continue
 		}
 		byName[nd.Name] = len(nodes)
-		nodes = append(nodes, oracle.IPNode{ID: nd.Name, Kind: "other", Labels: nd.Labels, Taints: nd.Spec.Taints, RawTaints: nd.Spec.Taints})
+		// nodes the scheduler was not offered as targets: those marked for deletion
+		nodes = append(nodes, oracle.IPNode{ID: nd.Name, Kind: "deleting", Deleting: true, Labels: nd.Labels, Taints: nd.Spec.Taints, RawTaints: nd.Spec.Taints})
+		r.Inc("deleting_nodes_in_world")
 	}
 	newIdx := map[*provscheduling.NodeClaim]int{}
 	for i, nc := range res.NewNodeClaims {
@@ -415,7 +587,7 @@ func judge(r *mon.Report, w *World, res provscheduling.Results, originals map[ty
 		lbls := merge(nc.Labels, map[string]string{corev1.LabelHostname: id})
 		newIdx[nc] = len(nodes)
 		nodes = append(nodes, oracle.IPNode{ID: id, Kind: "new", New: true, Labels: lbls, Taints: nc.Spec.Taints,
-			RawTaints: append(append([]corev1.Taint{}, nc.Spec.Taints...), nc.Spec.StartupTaints...)})
+			RawTaints: append(append([]corev1.Taint{}, nc.Spec.Taints...), nc.Spec.StartupTaints...), EmptiedKeys: emptiedKeys(s, nc), ComplementKeys: complementKeys(s, nc), MultiValuedKeys: multiValuedKeys(nc)})
 	}
 	// ---- pods ----
 	var pods []oracle.IPPod
@@ -480,7 +652,7 @@ func judge(r *mon.Report, w *World, res provscheduling.Results, originals map[ty
 		nsLabels[ns.Name] = ns.Labels
 	}
 	ip := oracle.NewInterPod(nodes, pods, nsLabels)
-	ip.Respect = e.Opts.PreferencePolicy == options.PreferencePolicyRespect
+	ip.Respect = w.respect
 	for _, p := range pods {
 		if p.Placed {
 			ip.Batch = append(ip.Batch, p.Orig)
@@ -572,7 +744,7 @@ func judge(r *mon.Report, w *World, res provscheduling.Results, originals map[ty
 		r.Count(k, v)
 	}
 	// ---- verdicts ----
-	respect := e.Opts.PreferencePolicy == options.PreferencePolicyRespect
+	respect := w.respect
 	collapsed := map[string][]string{}
 	for _, p := range pods {
 		if ks := oracle.CollapsedKeys(p.Copy, respect); len(ks) > 0 {
@@ -582,8 +754,9 @@ func judge(r *mon.Report, w *World, res provscheduling.Results, originals map[ty
 	for _, id := range order {
 		a := found[id]
 		key := a.f.Class
-		if a.hits < nreal {
-			key += ":undetermined-domain"
+		if a.hits < nreal && (strings.HasPrefix(key, "anti-affinity-violated:") || strings.HasPrefix(key, "affinity-unsatisfied:") || strings.HasPrefix(key, "affinity-self-start-despite") || strings.HasPrefix(key, "spread-maxskew-exceeded:"+"zone") ||
+			strings.HasPrefix(key, "spread-maxskew-exceeded:custom") || strings.HasPrefix(key, "spread-maxskew-exceeded:capacity-type") || strings.HasPrefix(key, "spread-maxskew-exceeded:hostname")) {
+			key += ":undetermined-domain" // generic classes only; root-cause classes keep one key
 		}
 		b, _ := json.Marshal(a.f.Detail)
 		for ref := range collapsed {
@@ -719,10 +892,11 @@ func batchSummary(w *World, originals map[types.UID]*corev1.Pod) []map[string]an
 func init() {
 	reg.Register(&reg.Prop{
 		ID: "C02", Level: "exploration",
-		Rule:  "each case = generated world (catalog 3-6 types with partly unavailable zones; 1-3 NodePools with zone In/NotIn, capacity-type and custom-key (label / In / NotIn / Exists / absent) requirements, taints; 3 labelled namespaces; 1-3 deployments with required+preferred pod affinity / anti-affinity over zone, hostname, custom key and capacity-type with namespaces / namespaceSelector, DoNotSchedule + ScheduleAnyway spreads with maxSkew 1-3, minDomains, both node inclusion policies, matchLabelKeys; 0-2 rounds of matching pods (some carrying the required anti-affinity, some pinned to zones to skew the distribution) provisioned and bound through the real pipeline, in-flight claims, 0-2 hand-built unmanaged nodes incl. an unprovisionable zone and nodes lacking topology labels, terminating/terminal pods) + batch of 2-14 pending pods with varied requests/creation times, scheduled by the real Provisioner.Schedule under PRNG-chosen {preference policy, parallelism 1/4/8}, ReservedCapacity off. Non-trivial = at least one required anti-affinity pair, required affinity term or DoNotSchedule spread group was judged by the realisation checker; distinct by (constraint kinds judged x kinds of target nodes x configuration).",
+		Rule:  "each case = generated world (catalog 3-6 types with partly unavailable zones; 1-3 NodePools with zone In/NotIn, capacity-type and custom-key (label / In / NotIn / Exists / absent) requirements, taints; 3 labelled namespaces; 1-3 deployments with required+preferred pod affinity / anti-affinity over zone, hostname, custom key and capacity-type with namespaces / namespaceSelector, DoNotSchedule + ScheduleAnyway spreads with maxSkew 1-3, minDomains, both node inclusion policies, matchLabelKeys; 0-2 rounds of matching pods (some carrying the required anti-affinity, some pinned to zones to skew the distribution) provisioned and bound through the real pipeline, in-flight claims, 0-2 hand-built unmanaged nodes incl. an unprovisionable zone and nodes lacking topology labels, terminating/terminal pods, sometimes a managed node being deleted whose pods are rescheduled; 1 world in 8 adds a tainted unmanaged node full of replicas next to an untainted one for nodeTaintsPolicy=Honor) followed by 3 scheduling passes, each with a fresh batch of 2-14 pending pods (varied requests/creation times, sometimes a rollout that edits minDomains on half of the replicas) scheduled by the real Provisioner.Schedule under its own PRNG-chosen {preference policy, parallelism 1/4/8}, ReservedCapacity off; every pass is judged on every assignment of concrete domains to the new NodeClaims (cap 512). Non-trivial = at least one required anti-affinity pair, required affinity term or DoNotSchedule spread group was judged by the realisation checker; distinct by (constraint kinds judged x kinds of target nodes x configuration).",
 		Cases: cases, Run: run, Race: true, RaceIsViolation: true,
 		RaceFrac: map[string]float64{"quick": 0.34, "thorough": 0.1},
 		MinObserved: map[string]int{
+			"scheduling_passes":                        600,
 			"realisations_checked":                     200,
 			"anti_affinity_pairs:placed-placed":        20,
 			"anti_affinity_pairs:placed-bound":         5,
